@@ -101,9 +101,9 @@ def zone_conv_inside(pl):
         if len(blocks) != 1:
             raise NotRecognised("expected one conversion block for %s in the zone walker" % var)
         flags.append(_is_desc(blocks[0][0], trip[0]))
-    if flags[0] != flags[1]:
-        raise NotRecognised("high/critical conversions are placed differently")
-    return flags[0]
+    # total: one conversion inside the loop is enough for the defect (the model with `true` converts both inside; the
+    # obligation `conv = false` fails either way)
+    return flags[0] or flags[1]
 
 
 def _float_divisors(scope):
@@ -125,7 +125,7 @@ def _nat(x):
 def temp_milli(pl):
     ks = _float_divisors(_temp_fn(pl))
     if len(ks) != 1:
-        raise NotRecognised("sensors_temperatures divides by %r" % sorted(ks))
+        return 0          # total: no single divisor (none, or several different ones) → 0, the obligation `milli = 1000` fails
     return _nat(ks.pop())
 
 
@@ -204,7 +204,7 @@ def khz(pl):
                 and extract.dotted(n.left.value) == "cpuinfo_freqs":
             ks.add(extract.const(n.right))
     if len(ks) != 1:
-        raise NotRecognised("cpu_freq scales by %r" % sorted(ks))
+        return 0          # total: no single factor → 0, the obligation `khz = 1000` fails
     return _nat(ks.pop())
 
 
@@ -234,11 +234,16 @@ def battery_consts(pl):
             if isinstance(e.op, ast.Mult) and isinstance(e.left, ast.BinOp) and isinstance(e.left.op, ast.Div) \
                     and extract.dotted(e.left.left) == "energy_now" and extract.dotted(e.left.right) == "power_now":
                 hour = _nat(extract.const(e.right))
+            elif isinstance(e.op, ast.Div) and isinstance(e.left, ast.BinOp) and isinstance(e.left.op, ast.Mult) \
+                    and extract.dotted(e.right) == "power_now" \
+                    and "energy_now" in (extract.dotted(e.left.left), extract.dotted(e.left.right)):
+                # the same quotient written `energy_now * K / power_now` (or `K * energy_now / power_now`)
+                k = e.left.right if extract.dotted(e.left.left) == "energy_now" else e.left.left
+                hour = _nat(extract.const(k))
             elif isinstance(e.op, ast.Mult) and extract.dotted(e.left) == "time_to_empty":
                 minute = _nat(extract.const(e.right))
-    if None in (pct, hour, minute):
-        raise NotRecognised("battery arithmetic not recognised (%r, %r, %r)" % (pct, hour, minute))
-    return pct, hour, minute
+    # total: a component whose expression has another shape is reported as 0 (the obligations 100 / 3600 / 60 fail on it)
+    return pct or 0, hour or 0, minute or 0
 
 
 def multi_alts(pl, var):
@@ -559,6 +564,19 @@ def cpuinfo_freq_test(pl):
     return ["<no list comprehension>"]
 
 
+def online_probe(pl):
+    """the path of the `online` file probed for a policy that has no frequency file: the expression assigned to
+    `online_path` (else the first argument of the `cat(...) == '0\\n'` comparison), rendered"""
+    fn = _sysfs_cpu_freq(pl)
+    asg = _assign_to(fn, "online_path")
+    if len(asg) == 1:
+        return extract.unparse(asg[0].value)
+    for n in ast.walk(fn):
+        if isinstance(n, ast.Compare) and isinstance(n.left, ast.Call) and extract.dotted(n.left.func) == "cat" and n.left.args:
+            return extract.unparse(n.left.args[0])
+    return "<no online probe>"
+
+
 def facts(snap, F):
     pl = extract.parse_module(snap, "_pslinux.py")
     init = extract.parse_module(snap, "__init__.py")
@@ -620,6 +638,8 @@ def facts(snap, F):
               "sensors_fans: arguments of glob.glob in source order")
     F.try_add("cpufreqGlobs", "List String", lambda: strs(glob_patterns(_sysfs_cpu_freq(pl))),
               "cpu_freq (sysfs variant): arguments of glob.glob in source order")
+    F.try_add("onlineProbe", "String", lambda: extract.lean_str(online_probe(pl)),
+              "cpu_freq (sysfs variant): path of the `online` file probed for a policy without frequency files")
     F.try_add("bootTimeReturn", "List String", lambda: strs(boot_time_return(pl)),
               "boot_time(): [expression returned in the btime branch, what was assigned to it]")
     F.try_add("logicalTests", "List String", lambda: strs(logical_tests(pl)),
